@@ -138,11 +138,20 @@ def _shrink(suite, exe, item, mode):
     """shrink a failing case; mode 'oracle' | 'crash' | 'diff'"""
     drv = core.driver_exe(suite.driver) if suite.driver else None
     key = item.get("msg", "").split(":")[0]
+    custom = getattr(suite, "still_fails", None)
 
     def fails(c):
+        if custom is not None:
+            return bool(custom(c, mode, item))
         rc, out, err = core.run_proc(exe, core.case_text(c), timeout=60, args=suite.harness_args())
         iout = suite.normalize(core.split_outputs(out).get(str(c["id"]), []))
         if mode == "crash":
+            # the same kind of crash only (same exit status; a timeout while shrinking is not a reproduction)
+            if rc == -9:
+                return False
+            want = item.get("rc")
+            if want not in (None, -9) and rc != want:
+                return False
             return rc != 0
         if rc != 0:
             return False
